@@ -112,9 +112,15 @@ def main():
         except Exception:
             # a crash of the harness after it has already recorded a violation with a concrete input (typically: the changed
             # code returned garbage that a later stream could not digest) must not hide that violation
-            if not any(v.get('found_input') for v in ctx.violations):
-                raise
-            ctx.extra['harness_crash_after_violation'] = traceback.format_exc()[-1500:]
+            # ... and a crash with nothing recorded means that the implementation produced something the correspondence cannot
+            # digest any more (on the unchanged tree no stream crashes, over all seeds tried): the correspondence no longer checks.
+            # Infrastructure failures (build, driver, time limits) are `Infra` and stay exit 2.
+            tb = traceback.format_exc()
+            traceback.print_exc()
+            if any(v.get('found_input') for v in ctx.violations):
+                ctx.extra['harness_crash_after_violation'] = tb[-1500:]
+            else:
+                ctx.broken('correspondence:harness-could-not-digest-implementation-output', tb[-2500:])
         rc = common.finish(ctx, R['theorems'], axioms,
                            checker_cmd='lake build ' + ' '.join('+' + m for m in R['modules']) + ' && lake env lean <#print axioms of the registered theorems>',
                            rule=R.get('rule', ''), exhaustive=ctx.extra.pop('exhaustive', False))
